@@ -1,4 +1,5 @@
-import DcmVerif.Props.SourceMeta
+import DcmVerif.Props.Source_classes
+import DcmVerif.Props.Source_valid
 import DcmVerif.Model.Valid
 /-! C10: the validity check accepts exactly the contents that meet the format rules.
 The full-strength iff is false of the code (finding F6: the value count is not checked for a varying
